@@ -154,6 +154,11 @@ def check(rec, kind, idx, rng, tier):
         chunks = gen.random_chunks((H, W), rng) if use_dask else None
         das = [gen.mk(bands[nm], chunks=(gen.random_chunks((H, W), rng) if (use_dask and rng.random() < 0.3) else chunks),
                       attrs={'res': (geom['cx'], geom['cy']), 'band': nm}, name=nm, **geom) for nm in bnames]
+        if rng.random() < 0.2 and len(das) >= 2:
+            # same grid, other coordinate labels on a later band (south-up vs north-up, shifted x): the indices are per cell, i.e. positional
+            j_ = int(rng.integers(1, len(das)))
+            das[j_] = das[j_].assign_coords(y=das[j_]['y'].values[::-1].copy(), x=das[j_]['x'].values + 0.25 * geom['cx'])
+            rec.cls('bands_with_different_coordinate_labels')
         out = rec.call(getattr(ms, name), *das, **p)
         b64 = {nm: _f32(bands[nm]) for nm in bnames}
         ref, den, scale, terms = _formula(name, b64, full)
@@ -291,6 +296,13 @@ def _true_color(rec, idx, rng, ms, H, W, geom):
     nodata = 1
     if rng.random() < 0.5:
         nodata = float(rng.choice([0, 1, 2, 50, -1])); kw['nodata'] = nodata
+    if dtype in ('float64', 'int64') and rng.random() < 0.3:
+        # red values a hair above nodata (not distinguishable from it in float32)
+        if dtype == 'float64':
+            m_ = rng.random((H, W)) < 0.3; bands['r'][m_] = nodata + abs(nodata) * 1e-9 + 1e-9
+        else:
+            nodata = float(2 ** 24); kw['nodata'] = nodata
+            m_ = rng.random((H, W)) < 0.3; bands['r'][m_] = 2 ** 24 + 1; bands['r'][~m_ & (rng.random((H, W)) < 0.3)] = 2 ** 24
     c, th = 10.0, 0.125
     if rng.random() < 0.3:
         c, th = float(rng.choice([5.0, 20.0])), float(rng.choice([0.1, 0.3])); kw.update(c=c, th=th)
